@@ -52,14 +52,18 @@ theorem witnessLoop2_U (S : Nat) (wit : VList → List Rat → Option (Nat → R
     · exact ⟨[], by simp, by simp⟩
     · split
       · rename_i v _ b _
-        obtain ⟨suf, h1, h2⟩ := witnessLoop2_U S wit row a f
-          (addVariations row (crossSumBestAtBeliefRow S b row a) { st with U := st.U ++ [crossSumBestAtBeliefRow S b row a] })
-        rw [addVariations_U] at h1
-        refine ⟨crossSumBestAtBeliefRow S b row a :: suf, by rw [h1]; simp, ?_⟩
-        intro e he
-        rcases List.mem_cons.mp he with rfl | he
-        · exact ⟨b, rfl⟩
-        · exact h2 e he
+        split
+        · -- the best vector at the witness point is already in U[a]: pop and continue
+          obtain ⟨suf, h1, h2⟩ := witnessLoop2_U S wit row a f { st with agenda := st.agenda.dropLast }
+          exact ⟨suf, h1, h2⟩
+        · obtain ⟨suf, h1, h2⟩ := witnessLoop2_U S wit row a f
+            (addVariations row (crossSumBestAtBeliefRow S b row a) { st with U := st.U ++ [crossSumBestAtBeliefRow S b row a] })
+          rw [addVariations_U] at h1
+          refine ⟨crossSumBestAtBeliefRow S b row a :: suf, by rw [h1]; simp, ?_⟩
+          intro e he
+          rcases List.mem_cons.mp he with rfl | he
+          · exact ⟨b, rfl⟩
+          · exact h2 e he
       · obtain ⟨suf, h1, h2⟩ := witnessLoop2_U S wit row a f { st with agenda := st.agenda.dropLast }
         exact ⟨suf, h1, h2⟩
 
@@ -79,7 +83,7 @@ theorem witnessAction_ne_nil (m : Pomdp) (wit : VList → List Rat → Option (N
     (fuel : Nat) (hf : 1 ≤ fuel) (prev : VList) (a : Nat) : witnessAction m wit fuel prev a ≠ [] := by
   obtain ⟨f, rfl⟩ : ∃ f, fuel = f + 1 := ⟨fuel - 1, by omega⟩
   unfold witnessAction
-  simp only [witnessLoop2, List.getLast?_singleton]
+  simp only [witnessLoop2, List.getLast?_singleton, List.any_nil, Bool.and_false, Bool.false_eq_true, if_false]
   split
   · rename_i b _
     obtain ⟨suf, h1, _⟩ := witnessLoop2_U m.S wit ((List.range m.O).map (fun o => project m prev a o)) a f
